@@ -248,7 +248,8 @@ def globPolicy {R} (x : Ext R) (g : GlobCfg) (force : Bool) : Policy (GPN R) whe
 /-- the tail of `_parse_patterns` -/
 def finishGlob {R} (x : Ext R) (g : GlobCfg) (force : Bool) (o : GPN R) : GPN R :=
   let pos := if o.pos.isEmpty && !o.neg.isEmpty && g.negateall then o.pos ++ [⟨['*', '*'], true⟩] else o.pos
-  let neg := if g.nodir && !force then o.neg ++ [x.noDir false] else o.neg     -- re_no_dir is the Windows variant on both branches
+  -- `re_no_dir`: the Windows variant only under Windows rules (`forcewin = self.flags & FORCEWIN`, after `_flag_transform`; fix: D16)
+  let neg := if g.nodir && !force then o.neg ++ [x.noDir (!g.flags.forcewin)] else o.neg
   ⟨pos, neg⟩
 
 /-- one `_parse_patterns` call: fresh `seen`; `self.current_limit` and `self.total` are shared by
